@@ -436,7 +436,7 @@ func (h *harness) niCase(c *niCase, comp compiler.Name, variant int, r *vh.Rng, 
 			lb = 6
 		}
 		if h.thorough || h.a.Search {
-			lb *= 3
+			lb *= 2
 		} else if !(variant == 0 && strings.HasSuffix(c.id, "/k256")) {
 			lb = 3 // quick tier: the full set on k256 variant 0, a few components elsewhere
 		}
@@ -719,7 +719,7 @@ func main() {
 	h.res.Rule = "per group (k256, BLS12-381 G1; thorough: k256 x3, BLS x2, P-256 x1 variants) and boundary variant (witness random/1/q-1/0) one statement-witness pair of every protocol " +
 		"(Schnorr, Okamoto, batch Schnorr k=3, ElGamal opening, dlog-with-ElGamal, AND of 2 Schnorr, OR of 3 Schnorr with one witness; Paillier n-th root with a cached modulus, ring-Pedersen prm with a tiny key; pailliern, paillier/lp, cggmp21 enc and encelg with pre-generated 2048-bit moduli; thorough also cggmp21 blummod/fac/affg/affgstar/dec, paillier/range and paillier/lpdl) x every compiler " +
 		"(Fiat-Shamir, Fischlin, randomised Fischlin): prove in a random context (session seed, 0-2 caller appends, prover id), verify in the same and in 10 changed contexts, " +
-		"flip bytes of the proof (every byte for Fiat-Shamir proofs; first/last 16 + a sample for the long Fischlin proofs in the quick tier), every decoded component (CBOR leaf) altered alone, structural changes, forged proofs; " +
+		"flip bytes of the proof (every byte for Fiat-Shamir proofs; first/last 16 + a sample for the long Fischlin proofs in the quick tier), every decoded component (CBOR leaf) altered alone, length variations of byte-string components, structural changes, forged proofs incl. the no-witness OR forger with an over-long share; " +
 		"sigma level: rewound provers with 5 challenges (random, 0, 1, 2^128-1), simulator, extractor. A case is non-trivial when the proof decodes."
 	if a.Replay != "" {
 		h.replay(a.Replay)
